@@ -28,9 +28,15 @@ import re
 HASH_RE = re.compile(r"\b(Fx)?Hash(Map|Set)\b")
 IDENT = r"[A-Za-z_][A-Za-z0-9_]*"
 
-# files (relative to crates/trust-runtime/src); globs expanded at run time
-SCAN_DIRS = ["bytecode/encoder", "runtime"]
-SCAN_FILES = ["bytecode/encode.rs", "memory.rs", "io.rs", "harness/build.rs"]
+# Scanned part of crates/trust-runtime/src: the whole compile path (harness/**, bytecode/**) and the whole
+# execution path (runtime/**, eval/**, stdlib/**, value/**, debug/**, memory, io, instances, tasks).  This is a
+# superset of the files DESIGN.md names (bytecode/encoder/*, bytecode/encode.rs, runtime/*, memory.rs, io.rs,
+# harness/build.rs).  Directories are walked recursively at run time, so new files are picked up.
+SCAN_DIRS = ["bytecode", "runtime", "harness", "eval", "stdlib", "value", "debug"]
+SCAN_FILES = ["memory.rs", "io.rs", "instance.rs", "task.rs", "error.rs", "datetime.rs", "numeric.rs", "retain.rs"]
+# Front end crates (parser, type checker): they must not contain std hash containers at all (they use
+# rustc_hash); every token `HashMap`/`HashSet` without the `Fx` prefix outside tests is listed.
+FRONT_END = ["trust-hir/src", "trust-syntax/src"]
 # files that must contain at least one std-hash binding (sanity: the scan really sees them)
 MUST_HAVE = ["bytecode/encoder/mod.rs", "bytecode/encoder/pou.rs", "bytecode/encoder/locals.rs",
              "io.rs", "harness/build.rs"]
@@ -53,6 +59,8 @@ METHOD_OPS = {
 ORDER_FREE = {"new", "withCapacity", "get", "getMut", "contains", "containsKey", "insert", "entry", "remove",
               "len", "isEmpty", "clear", "reserve", "clone", "collectInto", "moveTo", "passToScanned", "declare",
               "ambiguousForeign"}
+EXPOSING = {"iter", "iterMut", "intoIter", "keys", "values", "valuesMut", "intoKeys", "intoValues", "drain",
+            "retain", "forIn", "debugFmt", "extendFrom"}
 WRAPPERS = {"Ok", "Some", "Box::new", "Rc::new", "Arc::new", "RefCell::new", "Mutex::new"}
 
 
@@ -246,7 +254,11 @@ class Scanner:
             full = os.path.join(src_root, d)
             if not os.path.isdir(full):
                 raise ScanError(f"anchored directory missing: {d}")
-            rels += sorted(os.path.join(d, f) for f in os.listdir(full) if f.endswith(".rs"))
+            for dirpath, dirs, names in os.walk(full):
+                dirs.sort()
+                for f in sorted(names):
+                    if f.endswith(".rs"):
+                        rels.append(os.path.relpath(os.path.join(dirpath, f), src_root))
         rels += SCAN_FILES
         for rel in rels:
             full = os.path.join(src_root, rel)
@@ -522,8 +534,10 @@ class Scanner:
                     self.add_row(f, init_start, f"{fn['name']}::{name}", h, "collectInto")
             elif st:
                 typed[name] = st
-            else:
-                typed.setdefault(name, None)
+            elif ann and not hasher_of(ann):
+                typed.setdefault(name, None)      # explicitly annotated with a foreign type
+            # a `let` without annotation and with an unrecognised initialiser stays untyped (it may be
+            # a lock guard or a reference to one of the hash-carrying structs)
         # for-loop variables: typed by the iterated expression when it is a field chain whose type
         # mentions a scanned struct; foreign otherwise (scanned hash-carrying structs are never
         # produced by method calls of foreign collections)
@@ -618,8 +632,13 @@ class Scanner:
                     op = self.classify_context(f, fn, rstart, e, False)
                     self.add_row(f, s, f"{sname}.{fld}", h, op)
                 else:
+                    # the field name is also declared by structs without hash maps and the receiver is
+                    # untyped: an order-free context is harmless either way (listed as ambiguousForeign);
+                    # an order-exposing context fails closed (ambiguousExposing)
                     sname, h = visible[0]
-                    self.add_row(f, s, f"?.{fld}", h, "ambiguousForeign")
+                    rstart = bs + rm.start() if rm else s
+                    op = self.classify_context(f, fn, rstart, e, False)
+                    self.add_row(f, s, f"?.{fld}", h, "ambiguousExposing" if op in EXPOSING else "ambiguousForeign")
         # ---- results of hash-returning functions used in place
         for um in re.finditer(r"(?<![A-Za-z0-9_])(%s)\s*\(" % IDENT, body):
             if um.group(1) not in self.hash_fns:
@@ -664,11 +683,39 @@ class Scanner:
         return rows
 
 
+def front_end_std_hash(crates_root):
+    """(file, line, text) of every `HashMap`/`HashSet` token without `Fx` prefix in the front-end crates."""
+    hits = []
+    for rel_root in FRONT_END:
+        root = os.path.join(crates_root, rel_root)
+        if not os.path.isdir(root):
+            raise ScanError(f"front-end crate missing: {rel_root}")
+        nfiles = 0
+        for dirpath, dirs, names in os.walk(root):
+            dirs.sort()
+            if os.path.basename(dirpath) == "tests":
+                continue
+            for nm in sorted(names):
+                if not nm.endswith(".rs") or nm.startswith("test"):
+                    continue
+                nfiles += 1
+                full = os.path.join(dirpath, nm)
+                raw = open(full, encoding="utf-8").read()
+                code = blank_noncode(raw)
+                raw_lines = raw.split("\n")
+                for m in re.finditer(r"(?<![A-Za-z0-9_])Hash(Map|Set)\b", code):
+                    ln = line_of(code, m.start())
+                    hits.append((os.path.relpath(full, crates_root), ln, raw_lines[ln - 1].strip()))
+        if nfiles == 0:
+            raise ScanError(f"no sources found under {rel_root}")
+    return hits
+
+
 def lean_str(s):
     return '"' + s.replace("\\", "\\\\").replace('"', '\\"') + '"'
 
 
-def render_lean(rows, src_root_label):
+def render_lean(rows, src_root_label, front_end=()):
     out = ["-- GENERATED by checks/c05_scan.py from the Rust sources; do not edit.",
            "import TrustVerif.Model.C05",
            "",
@@ -682,6 +729,11 @@ def render_lean(rows, src_root_label):
         body.append("  ⟨%s, %d, %s, .%s, .%s, %s⟩" % (lean_str(r["file"]), r["line"], lean_str(r["binding"]),
                                                   r["hasher"], r["op"], lean_str(r["text"][:100])))
     out.append(",\n".join(body))
+    out += ["]", "",
+            "/-- Occurrences of std `HashMap`/`HashSet` (no `Fx` prefix) in the front-end crates trust-hir and",
+            "trust-syntax, outside tests: file, line, text. -/",
+            "def frontEndStdHash : List (String × Nat × String) := ["]
+    out.append(",\n".join("  (%s, %d, %s)" % (lean_str(f), ln, lean_str(t[:100])) for (f, ln, t) in front_end))
     out += ["]", "", "end TrustVerif.C05.Gen", ""]
     return "\n".join(out)
 
